@@ -3,5 +3,6 @@ CONSTANTS
   NStages = 3
   NItems = 3
   MaxFail = 2
-INVARIANTS InOrder StageOrder SingleOwner BoundedLead NoLossNoDup ErrorIsReal SuccessOnlyIfNoFailure
+  CancelFirst = FALSE
+INVARIANTS InOrder StageOrder SingleOwner BoundedLead NoLossNoDup ErrorIsReal SuccessOnlyIfNoFailure NoWorkAfterExit
 PROPERTY Termination
